@@ -35,7 +35,8 @@ def renderOuts : List Out → List UInt8 → List String
       | .send b => "S:" ++ showBytes b
       | .close => "X"
       | .authHook u p => "H:" ++ showBytes u ++ ":" ++ showBytes p
-      | .setAddr a ad p => "A:" ++ toString a.toNat ++ ":" ++ showBytes ad ++ ":" ++ toString p
+      | .setAddr a ad p => "A:" ++ toString a.toNat ++ ":" ++ showBytes ad ++ ":" ++ toString p ++ ":" ++
+          showBytes (String.ofList (hostText a ad)).toUTF8.toList
       | .openServer => "O"
       | .childStart => "CS"
       | .childClose => "CX"
@@ -91,6 +92,10 @@ def step (line : String) : String :=
     | some env, some acts =>
       let r := actAll env (.settled init) acts
       showA r.1 ++ " " ++ showOuts r.2
+    | _, _ => "bad-op"
+  | ["host", a, h] =>
+    match a.toNat?, hexOr h with
+    | some a, some ad => if a < 256 then showBytes (String.ofList (hostText (UInt8.ofNat a) ad)).toUTF8.toList else "bad-op"
     | _, _ => "bad-op"
   | _ => "bad-op"
 
